@@ -37,6 +37,11 @@ def evaluate(case):
     try:
         rm = R.derive(s, table)
     except R.Reject:
+        # outside the domain (C02 owns accept/reject) - but the call is still made: a failing call must not leave
+        # anything behind that corrupts the next translation
+        r = O.decode(s)
+        if r[0] == "exc":
+            return Result(Fail(r[1], selfies=s[:300], table=spec, error=r[2]))
         return Result(skipped="R2 predicts rejection")
     r = O.decode(s)
     if r[0] == "err":
